@@ -1322,3 +1322,38 @@ package mcp
 //@   before call return#0 assert[C02 a-handler-error-is-answered-with-that-message] !isnil(err) ==> istype(ret, *JSONRPCError) && ret.(*JSONRPCError) != nil && ret.(*JSONRPCError).Error.Message == err.Error() && ret.(*JSONRPCError).ID == req.ID
 //@   before call return#0 assert[C02 the-handlers-contents-are-the-result] isnil(err) && istype(ret, ReadResourceResult) ==> same(ret.(ReadResourceResult).Contents, contents)
 //@
+// ---- second measurement round (ids -4): general facts behind the misses ----
+// C14 — legacy SSE: an error object returned by the handler is what is encoded on the wire (code and data kept);
+// handleRequestError is for Go errors only
+//@ func SSEServer.processRequestAsync
+//@   before call Marshal#1 assert[C14,C03 error-object-passed-through] isnil(lasterr) && arg0 == lastres && istype(lastres, *JSONRPCError)
+//@   before call handleRequestError#1 assert[C14,C03 only-go-errors-become-internal-errors] !isnil(lasterr)
+//@
+// C15 / C13 — the core handler dispatches with the context and request it is called with (what the middlewares passed on)
+//@ func mcpHandler.handleRequest$1
+//@   before call dispatchRequest#1 assert[C15 the-core-uses-the-context-the-chain-passes-down] arg1 == ctx && arg2 == req
+//@   before call dispatchRequest#2 assert[C15 the-core-uses-the-context-the-chain-passes-down] arg1 == ctx && arg2 == req
+//@
+// C10 — in-call notifications are dispatched synchronously on the reader: no goroutine on the dispatch path
+//@ func streamableHTTPClientTransport.handleSSEResponse
+//@   sweep[C10] nogo
+//@ func streamableHTTPClientTransport.processEventData
+//@   sweep[C10] nogo
+//@ func streamableHTTPClientTransport.handleNotificationMessage
+//@   sweep[C10] nogo
+//@
+// C19 — header options accumulate: a later WithHTTPHeaders keeps the keys of earlier ones
+//@ func withTransportHTTPHeaders$1
+//@   loop 1 invariant[C19] t.httpHeaders != nil && (forall k string :: old(k in t.httpHeaders) ==> (k in t.httpHeaders)) && (forall k string :: visited(1, k) ==> (k in t.httpHeaders) && same(t.httpHeaders[k], headers[k])) && (forall k string :: (k in headers) ==> ranged(1, k))
+//@   ensures[C19 earlier-static-headers-are-kept] forall k string :: old(k in t.httpHeaders) ==> (k in t.httpHeaders)
+//@   ensures[C19 the-given-headers-are-set] forall k string :: (k in headers) ==> (k in t.httpHeaders) && same(t.httpHeaders[k], headers[k])
+//@
+// C01 / C05 — answers are handed over with a non-blocking send, so every registered response
+// channel must be buffered: an answer that arrives before the caller starts waiting is kept
+//@ type stdioClientTransport
+//@   lockinv[C01 registered-response-channels-are-buffered] pendingMutex: forall k int64 :: (k in self.pendingRequests) ==> chancap(self.pendingRequests[k]) >= 1
+//@ type sseClientTransport
+//@   lockinv[C01 registered-response-channels-are-buffered] responsesMu: forall k string :: (k in self.responses) ==> chancap(self.responses[k]) >= 1
+//@ type responseManager
+//@   lockinv[C05 registered-response-channels-are-buffered] mutex: forall k string :: (k in self.pendingRequests) ==> chancap(self.pendingRequests[k]) >= 1
+//@
